@@ -55,25 +55,25 @@ func coldFam() famDef {
 			"tkn20": func(a uint64) []byte {
 				pk, msk, err := tkn20.Setup(core.NewStream(seed + 100 + a))
 				if err != nil {
-					return []byte("!!setup-err")
+					return []byte("!!FAILED: setup-err")
 				}
 				var pol tkn20.Policy
 				if pol.FromString("a: x and not b: y") != nil {
-					return []byte("!!policy-err")
+					return []byte("!!FAILED: policy-err")
 				}
 				ct, err := pk.Encrypt(core.NewStream(seed+200+a), pol, msgOf(a))
 				if err != nil {
-					return []byte("!!encrypt-err")
+					return []byte("!!FAILED: encrypt-err")
 				}
 				var at tkn20.Attributes
 				at.FromMap(map[string]string{"a": "x", "b": "z"})
 				k, err := msk.KeyGen(core.NewStream(seed+300+a), at)
 				if err != nil {
-					return []byte("!!keygen-err")
+					return []byte("!!FAILED: keygen-err")
 				}
 				pt, err := k.Decrypt(ct)
 				if err != nil {
-					return []byte("!!own-ciphertext-undecryptable: " + err.Error())
+					return []byte("!!FAILED: own-ciphertext-undecryptable: " + err.Error())
 				}
 				pb, _ := pk.MarshalBinary()
 				return digest(pb, ct, pt)
@@ -83,7 +83,7 @@ func coldFam() famDef {
 				k1, err1 := bls.KeyGen[bls.KeyG1SigG2](ikm, nil, nil)
 				k2, err2 := bls.KeyGen[bls.KeyG2SigG1](ikm, nil, nil)
 				if err1 != nil || err2 != nil {
-					return []byte("!!keygen-err")
+					return []byte("!!FAILED: keygen-err")
 				}
 				s1, s2 := bls.Sign(k1, msgOf(a)), bls.Sign(k2, msgOf(a))
 				return digest(s1, s2, b2(bls.Verify(k1.PublicKey(), msgOf(a), s1)), b2(bls.Verify(k2.PublicKey(), msgOf(a), s2)))
@@ -104,11 +104,11 @@ func coldFam() famDef {
 				pk, sk := s.DeriveKeyPair(core.NewPRNG(seed + 600 + a).Bytes(s.SeedSize()))
 				ct, ss, err := s.EncapsulateDeterministically(pk, core.NewPRNG(seed+601+a).Bytes(s.EncapsulationSeedSize()))
 				if err != nil {
-					return []byte("!!encap-err:" + s.Name())
+					return []byte("!!FAILED: encap-err:" + s.Name())
 				}
 				ss2, err := s.Decapsulate(sk, ct)
 				if err != nil {
-					return []byte("!!decap-err:" + s.Name())
+					return []byte("!!FAILED: decap-err:" + s.Name())
 				}
 				return digest([]byte(s.Name()), ct, ss, ss2)
 			},
@@ -123,21 +123,21 @@ func coldFam() famDef {
 				su := suites[(a+seed)%uint64(len(suites))]
 				k, err := oprf.DeriveKey(su, oprf.VerifiableMode, core.NewPRNG(seed+800+a).Bytes(32), nil)
 				if err != nil {
-					return []byte("!!derive-err")
+					return []byte("!!FAILED: derive-err")
 				}
 				srv := oprf.NewVerifiableServer(su, k)
 				cl := oprf.NewVerifiableClient(su, k.Public())
 				fin, req, err := cl.Blind([][]byte{msgOf(a)})
 				if err != nil {
-					return []byte("!!blind-err")
+					return []byte("!!FAILED: blind-err")
 				}
 				ev, err := srv.Evaluate(req)
 				if err != nil {
-					return []byte("!!evaluate-err")
+					return []byte("!!FAILED: evaluate-err")
 				}
 				out, err := cl.Finalize(fin, ev)
 				if err != nil {
-					return []byte("!!finalize-err: " + err.Error())
+					return []byte("!!FAILED: finalize-err: " + err.Error())
 				}
 				full, _ := srv.FullEvaluate(msgOf(a))
 				return digest(out[0], full)
@@ -149,27 +149,27 @@ func coldFam() famDef {
 				suite := hpke.NewSuite(id, hpke.KDF_HKDF_SHA256, hpke.AEAD_ChaCha20Poly1305)
 				snd, err := suite.NewSender(pk, []byte("cold"))
 				if err != nil {
-					return []byte("!!sender-err")
+					return []byte("!!FAILED: sender-err")
 				}
 				enc, sealer, err := snd.Setup(core.NewStream(seed + 901 + a))
 				if err != nil {
-					return []byte("!!setup-err")
+					return []byte("!!FAILED: setup-err")
 				}
 				ct, err := sealer.Seal(msgOf(a), nil)
 				if err != nil {
-					return []byte("!!seal-err")
+					return []byte("!!FAILED: seal-err")
 				}
 				rcv, err := suite.NewReceiver(sk, []byte("cold"))
 				if err != nil {
-					return []byte("!!receiver-err")
+					return []byte("!!FAILED: receiver-err")
 				}
 				op, err := rcv.Setup(enc)
 				if err != nil {
-					return []byte("!!receiver-setup-err")
+					return []byte("!!FAILED: receiver-setup-err")
 				}
 				pt, err := op.Open(ct, nil)
 				if err != nil {
-					return []byte("!!open-err")
+					return []byte("!!FAILED: open-err")
 				}
 				return digest(enc, ct, pt)
 			},
@@ -225,23 +225,23 @@ func coldFam() famDef {
 				l := uint(3 + 2*(a%3))
 				shares, err := tssrsa.Deal(core.NewStream(seed+1400+a), l, 2, key, a%2 == 0)
 				if err != nil {
-					return []byte("!!deal-err")
+					return []byte("!!FAILED: deal-err")
 				}
 				ph, err := tssrsa.PadHash(&tssrsa.PKCS1v15Padder{}, crypto.SHA256, &key.PublicKey, msgOf(a))
 				if err != nil {
-					return []byte("!!pad-err")
+					return []byte("!!FAILED: pad-err")
 				}
 				var sss []tssrsa.SignShare
 				for i := 0; i < 2; i++ {
 					ss, err := shares[i].Sign(core.NewStream(seed+1500+a), &key.PublicKey, ph, false)
 					if err != nil {
-						return []byte("!!sign-err")
+						return []byte("!!FAILED: sign-err")
 					}
 					sss = append(sss, ss)
 				}
 				sig, err := tssrsa.CombineSignShares(&key.PublicKey, sss, ph)
 				if err != nil {
-					return []byte("!!combine-err: " + err.Error())
+					return []byte("!!FAILED: combine-err: " + err.Error())
 				}
 				return digest(sig)
 			},
